@@ -4,14 +4,18 @@ pub(crate) fn smaller_than_one(&self) -> bool
     requires
         B >= 2,
         !(self.significand.v() == 0 && self.exponent != 0),           // finite (debug_assert #0, dropped: exec call)
-        // machine ranges (memory limits; overflow of isize in `exponent + digits` is outside this contract)
-        -0x1000_0000_0000_0000 < self.exponent < 0x1000_0000_0000_0000,
-        ndigits(B as int, self.significand.v()) < 0x1000_0000_0000_0000,
+        // machine ranges: `exponent + digits_ub` fits isize (every caller has exponent < 0), fewer than 2^56 digits
+        // (memory limit; `digits_ub() as isize` does not wrap)
+        self.exponent < 0x100_0000_0000_0000,
+        ndigits(B as int, self.significand.v()) < 0x100_0000_0000_0000,
     ensures
         // "no false positives": a `true` answer means |self| < 1; PROVED here from the enclosure digits <= digits_ub:
         // it even means |significand| * B^exponent < 1/B
         ret ==> self.exponent < 0 && (B as int) * iabs(self.significand.v()) < ipow(B as int, (-(self.exponent as int)) as nat),
         ret ==> iabs(self.significand.v()) < ipow(B as int, (-(self.exponent as int)) as nat),
+        // auxiliary (resource bound for the callers' digit shifts, from the ASSUMED cap digits_ub <= 2*digits + 2):
+        // a `false` answer means the radix point is at most 2*digits + 3 positions left of the last digit
+        !ret ==> -(self.exponent as int) <= 2 * ndigits(B as int, self.significand.v()) + 3,
 @*/
 {
         debug_assert!(self.is_finite());
